@@ -14,20 +14,17 @@ demos=$(find "$WT/$SD" -maxdepth 1 -type f \( -name '*_test.go' -o -name '*_test
 [ -n "$demos" ] || demos=$(find "$WT/$SD" -type f \( -name '*_test.go' -o -name '*_test.go.txt' -o -name '*.go.txt' \) | sort | head -1)
 demo=$(echo "$demos" | head -1)
 [ -n "$demo" ] || { echo "no demo file found"; ls -R "$WT/$SD"; exit 2; }
-pkg=$(grep -m1 '^package ' "$demo" | awk '{print $2}')
-case "$pkg" in
-  readline|readline_test) dest=. ;;
-  inputrc|inputrc_test) dest=inputrc ;;
-  main) dest=MAIN ;;
-  *) dest=internal/${pkg%_test} ;;
-esac
+destof() { local pkg; pkg=$(grep -m1 '^package ' "$1" | awk '{print $2}'); case "$pkg" in
+  readline|readline_test) echo . ;; inputrc|inputrc_test) echo inputrc ;; main) echo MAIN ;; *) echo internal/${pkg%_test} ;; esac; }
+dest=$(destof "$demo")
 [ "$dest" = MAIN ] && { echo "demo is a main program: verify by hand ($demo)"; exit 3; }
-[ -d "$dest" ] || { echo "cannot map package $pkg"; exit 3; }
+[ -d "$dest" ] || { echo "cannot map package of $demo"; exit 3; }
 tname() { local n; n=$(basename "$1" .txt); case "$n" in *_test.go) ;; *) n="${n%.go}_test.go";; esac; echo "zz_seed_$n"; }
 tag=$(grep -m1 '^//go:build ' "$demo" | awk '{print $2}')
 TAGS=""; [ -n "$tag" ] && TAGS="-tags $tag"
-run() { timeout 300 $GO test $TAGS -vet=off -count=1 "./$dest/" 2>&1 | tail -15; return ${PIPESTATUS[0]}; }
-copied=""; for d in $demos; do cp "$d" "$dest/$(tname "$d")"; copied="$copied $dest/$(tname "$d")"; done
+dests=""; for d in $demos; do dd=$(destof "$d"); case " $dests " in *" ./$dd/ "*) ;; *) dests="$dests ./$dd/";; esac; done
+run() { timeout 300 $GO test $TAGS -vet=off -count=1 $dests 2>&1 | tail -15; return ${PIPESTATUS[0]}; }
+copied=""; for d in $demos; do dd=$(destof "$d"); cp "$d" "$dd/$(tname "$d")"; copied="$copied $dd/$(tname "$d")"; done
 run >/tmp/sv_clean.txt; rc_clean=$?
 git apply "$P" || { echo "patch does not apply"; rm -f $copied; exit 2; }
 run >/tmp/sv_patched.txt; rc_patched=$?
@@ -36,7 +33,7 @@ $GO build ./... >/tmp/sv_build.txt 2>&1; rc_build=$?
 timeout 600 $GO test -vet=off -count=1 ./... >/tmp/sv_suite.txt 2>&1; rc_suite=$?
 git checkout -q -- .
 echo "demo: clean rc=$rc_clean patched rc=$rc_patched | build rc=$rc_build suite rc=$rc_suite"
-if [ $rc_clean -ne 0 ] || [ $rc_patched -eq 0 ] || [ $rc_build -ne 0 ] || [ $rc_suite -ne 0 ]; then echo "SEED NOT CONFIRMED"; tail -5 /tmp/sv_clean.txt /tmp/sv_patched.txt /tmp/sv_suite.txt | cut -c1-200; exit 4; fi
+if [ $rc_clean -ne 0 ] || [ $rc_patched -eq 0 ] || [ $rc_build -ne 0 ] || [ $rc_suite -ne 0 ]; then echo "SEED NOT CONFIRMED"; tail -n 5 /tmp/sv_clean.txt /tmp/sv_patched.txt /tmp/sv_suite.txt | cut -c1-200; exit 4; fi
 mkdir -p /verif/seeded/$SID; cp "$P" /verif/seeded/$SID/patch.diff; for d in $demos; do cp "$d" /verif/seeded/$SID/; done; [ -f "$WT/$SD/README.txt" ] && cp "$WT/$SD/README.txt" /verif/seeded/$SID/README.txt
 tail -3 /tmp/sv_patched.txt | cut -c1-200 > /verif/seeded/$SID/demo_output_with_patch.txt
 echo "SEED CONFIRMED -> /verif/seeded/$SID (demo package ./$dest/)"
